@@ -9,8 +9,9 @@ CONSTANTS
   Ops = {}
   MaxInFlight = 0
   AuctionImpl = "intended"
+  Resolution = "locked"
   MaxRounds = 0
-INVARIANTS TypeOKC11 RegistrationExact SignedOverContent ReuseOnlyIfUnchanged FailureIsolated PreparationExact PreparationIsolated ControlledDropped ForwardedUnchanged ForwardedAll KeepsLastGood
+INVARIANTS TypeOKC11 RegistrationExact SignedOverContent ReuseOnlyIfUnchanged FailureIsolated PreparationExact PreparationIsolated ControlledDropped ForwardedUnchanged ForwardedAll F2ControlledDropped F2ForwardedUnchanged F2ForwardedAll KeepsLastGood
 CONSTRAINT HWM
 POSTCONDITION TraceAccepted
 CHECK_DEADLOCK FALSE
